@@ -140,7 +140,7 @@ PROPS = {
     },
     "C07": {
         "v_units": ["logic.py"],
-        "r": [("composer_leaves", None)],
+        "r": [("composer_leaves", None), ("gadgets", None)],
         "claim": "shape independence as non-interference: every verified component contract states gates(final) == gates(old) + shape(...) "
                  "where shape is a function of wire INDICES and constant parameters only (no witness value occurs in it), for all field "
                  "values: append_gate, append_evaluated_output (row count 1 on all three q_O paths; output witness iff q_O != 0, a "
@@ -148,12 +148,15 @@ PROPS = {
                  "component_select/_one/_zero, range_check_even / range_check / component_range(_bits) for every width <= 256. "
                  "Totality: all index / overflow / unwrap / callee-precondition obligations of these bodies are discharged.",
         "technique": "contract-based deductive verification: Verus on the real functions annotated in place (overlay); leaf effects by ring/trace checker",
-        "level_note": "Components not yet under contract (logic, truncate, decomposition, point, fixed_base gadgets) are not covered by this claim. "
+        "level_note": "Verus units: base gates, boolean/select, range, truncation, logic (all widths). Ring/trace units (sequence of composer "
+                      "operations, every value-dependent branch path-split and shown to produce the same sequence; dependency "
+                      "preconditions such as Z != 0 before JubJubAffine::from must be established on every path): all point gadgets incl. "
+                      "the 252-round component_mul_point and the 256-round fixed-base gadget. component_decomposition is used by assumed contract. "
                       "Precondition of every component: witness arguments were allocated by this composer (valid_w).",
         "design_ref": "DESIGN.md §4 C07",
         "assumptions": A_VERUS + ["CANON model of BlsScalar", "cut_le_bits (BitIterator8) contract", "Runtime::event cuts have no effect on the views"],
         "trusted": T_VERUS + T_RING,
-        "not_covered": ["append_logic_component, component_truncate, component_decomposition, point and fixed-base gadgets, Compiler::compile pairing"],
+        "not_covered": ["component_decomposition body (fold with &mut-capturing closure)", "Compiler::compile (default instance) vs Composer::prove pairing"],
     },
     "C08": {
         "v_units": ["composer_base.py", "composer_bits_select.py"],
@@ -221,25 +224,50 @@ PROPS = {
         "not_covered": ["component_decomposition", "semantic lemma for truncation"],
     },
     "C12": {
-        "r": [("widgets", lambda n: n.startswith("curve_addition."))],
-        "claim": "curve-addition widget only: prover quotient term, linearisation and verifier commitment term equal the twisted-Edwards "
-                 "(a = -1) addition law in polynomial form: x1*y2 - w, (w + y1 x2) - x3 (1 + d w y1 x2), (y1 y2 + x1 x2) - y3 (1 - d w y1 x2).",
+        "r": [("widgets", lambda n: n.startswith("curve_addition.")), ("gadgets", lambda n: n.startswith("point."))],
+        "claim": "(a) curve-addition widget: prover quotient term, linearisation and verifier commitment term equal the twisted-Edwards "
+                 "(a = -1) addition law in polynomial form: x1*y2 - w, (w + y1 x2) - x3 (1 + d w y1 x2), (y1 y2 + x1 x2) - y3 (1 - d w y1 x2); "
+                 "(b) gadget wiring as composer-operation sequences: add_point_gates (selected row (x1,y1,x2,y2), carrier row (x3,y3,0,x1*y2), "
+                 "honest values x1*y2 and the affine sum, identity stand-in when Z = 0 with the SAME shape), component_add/sub/neg_point, "
+                 "select_identity_gates, component_select_identity (boolean row present), component_select_point, component_mul_point "
+                 "(252-bit decomposition, MSB first, double then conditional add, all 252 rounds).",
         "technique": "contract-based deductive verification: ring/trace contract checker (exact polynomial normal form)",
-        "level_note": "NOT covered: component_add_point etc. layouts, the group law of dusk-jubjub, uniqueness of (x3,y3).",
+        "level_note": "NOT covered: the group law of dusk-jubjub (A4), uniqueness of (x3,y3) (A5); component_decomposition by assumed contract.",
         "design_ref": "DESIGN.md §4 C12",
         "assumptions": A_RING + ["EDWARDS_D treated as an opaque constant symbol"], "trusted": T_RING,
-        "not_covered": ["point gadget layouts", "group law (A4, A5)"],
+        "not_covered": ["group law (A4, A5)"],
+    },
+    "C13": {
+        "r": [("gadgets", lambda n: n.startswith("point.append") or n.startswith("point.assert") or n.startswith("point.reject") or "mul_generator" in n or n == "point.add_point_gates")],
+        "claim": "entry-point behaviour as exit structure + composer-operation sequence: append_point / append_public_point / "
+                 "assert_equal_public_point return Err(JubJubPointDegenerate) exactly when Z == 0, before anything is emitted and before any "
+                 "projecting call; append_constant_point additionally Err(JubJubPointNotTorsionFree) unless on-curve AND torsion-free; "
+                 "component_mul_generator: Err(JubJubGeneratorNotPrimeOrder) iff Z == 0 or off-curve or not prime order, tested in that order "
+                 "(is_on_curve never evaluated on Z = 0: dependency precondition established on every path), Err(JubJubScalarMalformed) for "
+                 "a non-canonical scalar; assert_torsion_free_gates: Q appended, Q-on-curve row -u^2+v^2-d u^2 v^2-1 = 0 via three products, "
+                 "three doublings via add_point_gates(q,q), two closing equalities; assert_torsion_free_point feeds Q = [8^-1]P or the "
+                 "identity stand-in (same shape on both arms).",
+        "technique": "contract-based deductive verification: ring/trace contract checker (exits, path splitting, dependency preconditions)",
+        "level_note": "NOT decided: 'satisfiable exactly for prime-order subgroup points' (cofactor-8 image argument + completeness of the "
+                      "addition law: axioms A4-A6). jubjub predicates (is_on_curve, is_torsion_free, is_prime_order) are uninterpreted.",
+        "design_ref": "DESIGN.md §4 C13",
+        "assumptions": A_RING + ["AXIOM A4: twisted-Edwards arithmetic on on-curve inputs never yields Z = 0"], "trusted": T_RING,
+        "not_covered": ["the subgroup iff (A4-A6)"],
     },
     "C14": {
-        "r": [("widgets", lambda n: n.startswith("fixed_base."))],
-        "claim": "fixed-base widget only: extract_bit, check_bit_consistency, prover quotient term, linearisation and verifier commitment "
+        "r": [("widgets", lambda n: n.startswith("fixed_base.")), ("gadgets", lambda n: n.startswith("fixed_base."))],
+        "claim": "(a) fixed-base widget: extract_bit, check_bit_consistency, prover quotient term, linearisation and verifier commitment "
                  "term equal the protocol's fixed-base row identity (bit in {-1,0,1}; xy_alpha = bit*xy_beta; Edwards addition of the "
-                 "selected table point to the accumulator).",
+                 "selected table point to the accumulator); (b) gadget: assert_canonical_jubjub_scalar = two 252-bit range checks around "
+                 "(r_j - 1) - s; append_fixed_base_signed_digits emits, for all 256 rounds, 4 witnesses and one selected row with "
+                 "q_L = x_beta, q_R = y_beta, q_C = x_beta*y_beta, first-row anchors to (0,1,0), carrier row, leading accumulator "
+                 "(round 3) pinned to 0, closing equality with the scalar witness; component_mul_generator guard order and error mapping.",
         "technique": "contract-based deductive verification: ring/trace contract checker (exact polynomial normal form)",
-        "level_note": "NOT covered: component_mul_generator layout, canonical-scalar check, [s]G.",
+        "level_note": "Host-side table / digit computations inside append_fixed_base_signed_digits are havocked (trace-only mode). NOT covered: "
+                      "the canonical-scalar lemma, the integer-equality lemma, [s]G (group law).",
         "design_ref": "DESIGN.md §4 C14",
         "assumptions": A_RING + ["EDWARDS_D treated as an opaque constant symbol"], "trusted": T_RING,
-        "not_covered": ["component_mul_generator layout and canonicity lemma", "group law"],
+        "not_covered": ["canonicity / integer-equality lemmas", "group law", "Err(UnsupportedWNAF2k) exit (havocked statement)"],
     },
     "C17": {
         "v_units": ["decoders.py", "compress.py"],
